@@ -54,6 +54,9 @@ func genC06(t *simrt.Tape, tier string) interface{} {
 		p.GapMs = append(p.GapMs, []int{0, 0, 1, 7, 40}[t.Draw(5)])
 	}
 	p.EndMode = t.Draw(3)
+	if p.Role == "client" && t.Draw(4) == 0 {
+		p.EndMode = 3 // the peer breaks off in the middle of an envelope
+	}
 	p.EndAtMs = []int{0, 1, 5, 30, 120, 600}[t.Draw(6)]
 	p.StepGapMs = []int{0, 1, 10, 50}[t.Draw(4)]
 	if p.Conf.Transport != "inproc" && t.Draw(3) == 0 {
@@ -308,6 +311,15 @@ func runC06(w *World, pi interface{}) {
 			finishLocal()
 		case 1:
 			endPeer()
+		case 3:
+			if p.Role == "client" {
+				// half an envelope, then the end of the stream: the session is over, although no
+				// terminal envelope says so and the other direction still takes bytes
+				peer.SendBytes([]byte(`{"id":"cut","type":"text/plain","content":"trunca`), "half-frame")
+				peer.Close()
+			} else {
+				endPeer()
+			}
 		}
 	}()
 	for _, fl := range done {
@@ -338,8 +350,9 @@ func runC06(w *World, pi interface{}) {
 	// whatever the channel's own State() claims
 	if p.Role == "client" {
 		var endAt time.Duration = -1
-		for _, e := range h.Of(0, "c-send") {
-			if term[fstr(e.Frame, "state")] && endAt < 0 {
+		for _, e := range h.Of(0, "c-send", "c-close") {
+			if (e.Kind == "c-close" || term[fstr(e.Frame, "state")]) && endAt < 0 {
+				// (the server's terminal envelope, or the server closing the connection)
 				endAt = time.Duration(e.AtMs) * time.Millisecond
 			}
 		}
